@@ -83,6 +83,7 @@ macro_rules! c03_zipf {
 fn umax64(w: u64) -> bool { (w >> 11) == (1u64 << 53) - 1 }
 fn umax32(w: u64) -> bool { ((w as u32) >> 8) == (1u32 << 24) - 1 }
 //@ id: c03_zipf_f64
+//@ besteffort: yes
 //@ prop: C03
 //@ tier: thorough
 //@ cap: 900
@@ -91,6 +92,7 @@ fn umax32(w: u64) -> bool { ((w as u32) >> 8) == (1u32 << 24) - 1 }
 //@ assumes: libm::{pow,log,exp} by contract; x <= n is asserted only for n < 2 (for larger n it depends on the last-ulp accuracy of powf, outside the contracts); known finding zipf_n1_umax excluded
 c03_zipf!(c03_zipf_f64, f64, 1e15, umax64, 0, false);
 //@ id: c03_zipf_f32
+//@ besteffort: yes
 //@ prop: C03
 //@ tier: thorough
 //@ cap: 900
@@ -204,6 +206,7 @@ macro_rules! c03_zipf_lite {
     };
 }
 //@ id: c03_zipf_lite_f64
+//@ besteffort: yes
 //@ prop: C03
 //@ tier: thorough
 //@ cap: 900
